@@ -17,6 +17,7 @@ import threading
 from . import common
 
 PKG = None
+_PKG_MODS = None
 
 
 def pkg_dirs():
@@ -379,10 +380,13 @@ def fingerprint(template):
     from DocumentTemplate.DT_String import String
     out.append(('commands', tuple(sorted((k, id(v)) for k, v in String.commands.items()))))
     # module-level mutable containers of the package (caches, free lists, registries)
-    for mname, mod in sorted(sys.modules.items()):
-        if mod is None or not (mname.startswith('DocumentTemplate') or mname.startswith('TreeDisplay')) or '.tests' in mname:
-            continue
-        for gname, g in sorted(vars(mod).items()):
+    global _PKG_MODS
+    if _PKG_MODS is None:
+        _PKG_MODS = [(mname, mod) for mname, mod in sorted(sys.modules.items())
+                     if mod is not None and (mname.startswith('DocumentTemplate') or mname.startswith('TreeDisplay'))
+                     and '.tests' not in mname]
+    for mname, mod in _PKG_MODS:
+        for gname, g in vars(mod).items():
             if gname.startswith('__'):
                 continue
             if isinstance(g, (list, set)):
